@@ -106,7 +106,7 @@ def handle (toks : List String) : String :=
     | _, _ => "bad-op"
   | ["check", cls] =>
     match findTable cls with
-    | some t => joinSp ([t.oneExpr, t.selfFill, t.guardOwn, t.resetsOk, t.initOk].map showBool)
+    | some t => joinSp ([t.oneExpr, t.selfFill, t.guardOwn, t.resetsOk, t.initOk, t.allGuarded, t.groupClosed, t.putWhole, t.getClearsWhole].map showBool)
     | none => "bad-op"
   | ["windcheck"] => joinSp ([Wind.writesMatch Gen.Wind.setterTable, Wind.needsMatch, Wind.TableOk Wind.genTable].map showBool)
   | _ => "bad-op"
